@@ -485,6 +485,7 @@ theorem soundR (i : InputR) : holdsOnR i (modelR i) = true := by
     unfold fromText822
     rw [hrest]
     simp only [List.isEmpty_cons, Bool.false_eq_true, if_false]
+    unfold fromTextNonEmpty
     rw [not_signed c0 rest hP0 hd0, ← hrest, hpara]
     -- the answer, pair by pair
     simp only [fs, List.map_map]
